@@ -98,7 +98,9 @@ Definition locked_on_chain (snap : list orec) (chain : list cout) : list orec :=
 Definition missing (snap : list orec) (chain : list cout) : list cout :=
   filter (fun d => match find_match snap d with Some _ => false | None => true end) chain.
 
-(** highest child index found per account among restored outputs *)
+(** highest child index found per account among the seed's outputs on chain (all of them,
+    whether or not the wallet already records them: after the [fix:] of the interrupted-restore
+    defect; before it, only the outputs restored by this very scan were counted) *)
 Fixpoint found_max (ms : list cout) (acc : list (N * N)) : list (N * N) :=
   match ms with
   | [] => acc
@@ -125,7 +127,7 @@ Definition scan_repair (w : wallet) (chain : list cout) (delete_unconfirmed : bo
                             with_outs w' (del_out (w_outs w') (r_key o) (r_mmr o)))
                 (filter (fun o => status_eqb (r_status o) Unconfirmed) snap) wa
     else w2 in
-  restore_indices w3 (found_max ms []).
+  restore_indices w3 (found_max chain []).
 
 (** wallet state from literal components (used by the correspondence run to start the
     model from a real wallet's snapshot) *)
